@@ -363,12 +363,18 @@ def _tuple_decrement(expr, index_name):
             and isinstance(expr.elts[2], ast.Starred)):
         return None
     a, m, c = expr.elts[0].value, expr.elts[1], expr.elts[2].value
-    if not (isinstance(m, ast.BinOp) and isinstance(m.op, ast.Sub) and norm(m.right) == "1" and isinstance(m.left, ast.Subscript)
-            and norm(m.left.value) == index_name):
+    if not (isinstance(m, ast.BinOp) and isinstance(m.op, ast.Sub) and norm(m.right) == "1"):
         return None
-    k = norm(m.left.slice)
-    if norm(a) == f"{index_name}[:{k}]" and norm(c) in (f"{index_name}[{k} + 1:]", f"{index_name}[1 + {k}:]"):
-        return k
+    if isinstance(m.left, ast.Subscript) and norm(m.left.value) == index_name:
+        k = norm(m.left.slice)
+        if norm(a) == f"{index_name}[:{k}]" and norm(c) in (f"{index_name}[{k} + 1:]", f"{index_name}[1 + {k}:]"):
+            return k
+    if isinstance(m.left, ast.Name) and isinstance(a, ast.Subscript) and norm(a.value) == index_name and isinstance(a.slice, ast.Slice) \
+            and a.slice.lower is None and a.slice.upper is not None:
+        # (*index[:K], ORDER - 1, *index[K + 1:]) with ORDER the name the selection binds to index[K] (checked by the caller)
+        k = norm(a.slice.upper)
+        if norm(c) in (f"{index_name}[{k} + 1:]", f"{index_name}[1 + {k}:]"):
+            return (k, m.left.id)
     return None
 
 
@@ -394,6 +400,9 @@ def _derivative_selection(f, index_name):
             k = next(iter(ks))
     if k is None:
         return None
+    order_alias = None
+    if isinstance(k, tuple):
+        k, order_alias = k
     for n in own_nodes(f):
         if isinstance(n, ast.Assign) and isinstance(n.value, ast.Call) and call_name(n.value) == "next" and n.value.args:
             g = n.value.args[0]
@@ -407,9 +416,9 @@ def _derivative_selection(f, index_name):
                 continue
             if isinstance(n.targets[0], ast.Tuple) and norm(g.elt) == f"({i}, {v})":
                 names = [norm(e) for e in n.targets[0].elts]
-                if names[0] == k:
+                if names[0] == k and order_alias in (None, names[1]):
                     return k, names[1]
-            if isinstance(n.targets[0], ast.Name) and norm(g.elt) == i and n.targets[0].id == k:
+            if isinstance(n.targets[0], ast.Name) and norm(g.elt) == i and n.targets[0].id == k and order_alias is None:
                 return k, f"{index_name}[{k}]"
     return None
 
@@ -603,7 +612,8 @@ def rule_key_normalisation(rep: Report, repo: Repo):
     benv = run_block([x for x in loops[0].body[:loops[0].body.index(st[0])] if isinstance(x, ast.Assign)]) if st[0] in loops[0].body else None
     if benv is None:
         raise AnalysisError(R, "_symbolic_keys_to_tuples: the store is not a top-level statement of the loop")
-    ktext = rtext(st[0].targets[0].slice, benv)
+    from .sem import ctext as _ctext_k
+    ktext = _ctext_k(resolved(st[0].targets[0].slice, benv))
     ok = ktext == f"tuple(({kname}.as_powers_dict()[_v0] for _v0 in {S}))" and rtext(st[0].value, benv) == vname
     rep.check(ok, R, "_symbolic_keys_to_tuples builds each order tuple by iterating the returned `symbols` sequence",
               f"key `{ktext}` (orders are labelled by the same sequence `{S}` that becomes dimension_names)", loc(st[0]))
